@@ -139,7 +139,50 @@ def numeric_job(job):
     wts = np.exp(-(e - lam * o ** 2) / temp)
     want = wts / wts.sum()
     err = float(np.max(np.abs(np.diag(st).real - want)))
-    return [] if err < 1e-5 else [{"what": "closed-form", "n": n, "err": err}]
+    return [] if err < 1e-8 else [{"what": "closed-form", "n": n, "T": temp, "err": err}]
+
+
+def physical_job(job):
+    """Numerical (not decided by the specification): for Hamiltonians that do not commute with the coupling operator
+    and coupling eigenvalues with different squares the returned state is a normalised, Hermitian, positive matrix,
+    and the same GibbsParameters object used before for another temperature gives the same state as a fresh one."""
+    import oqupy
+    kind, n, temp = job
+    sx = np.array([[0, 1], [1, 0]], dtype=complex)
+    sy = np.array([[0, -1j], [1j, 0]])
+    sz = np.diag([1.0 + 0j, -1.0])
+    if kind == "real2":
+        h, o = 0.5 * sx + 0.2 * sz, np.diag([0.7, -0.2])
+    elif kind == "complex2":
+        h, o = 0.5 * sx + 0.4 * sy + 0.2 * sz, np.diag([0.7, -0.2])
+    else:
+        h = np.array([[0.3, 0.2 - 0.3j, 0.1j], [0.2 + 0.3j, -0.1, 0.25], [-0.1j, 0.25, 0.4]])
+        o = np.diag([1.0, 0.3, 0.3])
+    out = []
+
+    def run_with(params, t):
+        corr = oqupy.PowerLawSD(alpha=0.15, zeta=1.0, cutoff=2.5, cutoff_type="exponential", temperature=t)
+        g = oqupy.GibbsTempo(oqupy.System(h), oqupy.Bath(o, corr), params)
+        g.compute(progress_type="silent")
+        return np.array(g.get_state())
+    try:
+        fresh = run_with(oqupy.GibbsParameters(n_steps=n, epsrel=1e-10), temp)
+        used = oqupy.GibbsParameters(n_steps=n, epsrel=1e-10)
+        run_with(used, 2.0 * temp + 0.3)
+        again = run_with(used, temp)
+    except Exception as ex:  # pylint: disable=broad-except
+        return [{"what": "exception", "detail": "%s: %s" % (type(ex).__name__, str(ex)[:160])}]
+    herm = float(np.max(np.abs(fresh - fresh.conj().T)))
+    if herm > 1e-7:
+        out.append({"what": "not-hermitian", "err": herm})
+    if abs(np.trace(fresh) - 1) > 1e-9:
+        out.append({"what": "not-normalised", "trace": str(np.trace(fresh))})
+    ev = np.linalg.eigvalsh((fresh + fresh.conj().T) / 2)
+    if ev.min() < -1e-7:
+        out.append({"what": "not-positive", "min_eigenvalue": float(ev.min())})
+    if np.max(np.abs(again - fresh)) > 1e-10:
+        out.append({"what": "reused-parameters-object-changes-state", "err": float(np.max(np.abs(again - fresh)))})
+    return out
 
 
 def run(ctx):
@@ -190,16 +233,21 @@ def run(ctx):
         for x in mm:
             ctx.violation("C11:history:%s" % x["what"], "%s: %s" % (cid, x), {"history": c})
     # loose numerical cross-check
-    njobs = [(4, 0.6), (8, 0.6)]
+    njobs = [(4, 0.6), (8, 0.6), (4, 2.5), (4, 0.3), (8, 0.3), (4, 0.15), (6, 0.08)]
     for j, mm in zip(njobs, core.pmap(numeric_job, njobs)):
         ctx.case({"numeric": list(j)}, nontrivial=True)
         for x in mm:
             ctx.violation("C11:numeric:%s" % x["what"], "%s: %s" % (j, x), {"numeric": list(j)})
+    pjobs = [(kind, n, temp) for kind in ("real2", "complex2", "complex3") for n, temp in ((2, 2.5), (5, 2.1))]
+    for j, mm in zip(pjobs, core.pmap(physical_job, pjobs)):
+        ctx.case({"check": "non-commuting, physical + parameters re-used", "model": j[0], "n_steps": j[1], "T": j[2]})
+        for x in mm:
+            ctx.violation("C11:physical:%s" % x["what"], "%s: %s" % (j, x), {"physical": list(j)})
     ctx.rule = ("zero-coupling: 4 Gaussian-integer propagators (real and complex, d=2,3) x n_steps x T; commuting models: "
                 "3 coupling/energy patterns x n_steps with the lattice bath; all histories of <= 3 compute/get_state calls; "
                 "non-trivial zero-coupling = complex P")
     ctx.exhaustive = True
-    ctx.assumptions += ["closed form for real spectral densities: numerical cross-check only (tolerance 1e-5)"]
+    ctx.assumptions += ["closed form for real spectral densities (T from 0.08 to 2.5 at cutoff 2.5): numerical cross-check (tolerance 1e-8)"]
 
 
 def replay(ctx, rep):
@@ -211,6 +259,8 @@ def replay(ctx, rep):
         mm = commuting_job(tuple(c["commuting"]))
     elif "history" in c:
         mm = c14.replay_case(c["history"])
+    elif "physical" in c:
+        mm = physical_job(tuple(c["physical"]))
     else:
         mm = numeric_job(tuple(c["numeric"]))
     ctx.case({"replay": True})
